@@ -13,6 +13,7 @@ ACT = dict(
     ASEND="A_ASEND_START", RECV="A_RECV", TRY_RECV="A_TRY_RECV", TRY_RECV_RT="A_TRY_RECV_RT",
     RECV_TO="A_RECV_TIMEOUT", DRAIN="A_DRAIN", ARECV="A_ARECV_START", CLOSE_S="A_CLOSE_S",
     CLOSE_R="A_CLOSE_R", DROP_S="A_DROP_S", DROP_R="A_DROP_R", NOP="A_NOP", OBSERVE="A_OBSERVE",
+    DROP_S_ASYNC="A_DROP_S", DROP_R_ASYNC="A_DROP_R",
 )
 DROPPY = ["TagS", "TagP", "TagL"]
 PLAIN = ["u8", "u32", "usize", "Big", "Pad", "PadL"]
@@ -39,8 +40,8 @@ SEND_OUTERS = ["SEND", "SEND_TO", "SEND_OPT_TO"]
 RECV_OUTERS = ["RECV", "RECV_TO"]
 RECV_PEERS = ["RECV", "TRY_RECV", "TRY_RECV_RT", "RECV_TO", "DRAIN", "ARECV"]
 SEND_PEERS = ["SEND", "TRY_SEND", "TRY_SEND_OPT", "TRY_SEND_RT", "TRY_SEND_OPT_RT", "SEND_TO", "SEND_OPT_TO", "ASEND"]
-KILL_FOR_SENDER = ["CLOSE_S", "CLOSE_R", "DROP_R"]
-KILL_FOR_RECEIVER = ["CLOSE_S", "CLOSE_R", "DROP_S"]
+KILL_FOR_SENDER = ["CLOSE_S", "CLOSE_R", "DROP_R", "DROP_R_ASYNC"]
+KILL_FOR_RECEIVER = ["CLOSE_S", "CLOSE_R", "DROP_S", "DROP_S_ASYNC"]
 
 
 def sites_for(outer):
@@ -59,7 +60,8 @@ def blocked(T, cap, outer, sv, peer):
     if clock != 0 and peer in ("RECV_TO", "SEND_TO", "SEND_OPT_TO"):
         clock_ok = False  # a timed peer would consume positions of the concrete clock script
     name = "b_%s_c%d_%s_%s_s%dk%dp%d_%s" % (tname(T), cap, outer, site, spur, clock, par, peer)
-    body = "blocked::<%s>(%d, %s, SITE_%s, %s, %d, %d, %d);" % (T, cap, ACT[outer], site, ACT[peer], spur, clock, par)
+    body = "blocked::<%s>(%d, %s, SITE_%s, %s, %d, %d, %d, %d);" % (T, cap, ACT[outer], site, ACT[peer], spur, clock, par,
+                                                                     1 if peer.endswith("_ASYNC") else 0)
     covers = []
     return Inst(name.lower(), body, unwind=8, covers=covers,
                 note="blocked %s on cap %d (%s), peer %s at site %s, spurious-plan %d, clock-mode %d, par %d" % (
@@ -101,7 +103,8 @@ def blocked_matrix(outers, peers_of, types, caps, full):
 
 def async_waiter(T, cap, send_side, peer, repolls):
     name = "a_%s_c%d_%s_%s_r%d" % (tname(T), cap, "sf" if send_side else "rf", peer, repolls)
-    body = "async_waiter::<%s>(%d, %s, %s, %d);" % (T, cap, "true" if send_side else "false", ACT[peer], repolls)
+    body = "async_waiter::<%s>(%d, %s, %s, %d, %d);" % (T, cap, "true" if send_side else "false", ACT[peer], repolls,
+                                                        1 if peer.endswith("_ASYNC") else 0)
     return Inst(name.lower(), body, unwind=8,
                 note="pending %s future on cap %d (%s), %d spurious re-polls with symbolic wakers, then peer %s, then final poll" % (
                     "send" if send_side else "receive", cap, T, repolls, peer))
@@ -207,6 +210,8 @@ def _atoms():
     for f, w in ((0, 0), (0, 1), (1, 1)):
         A.append(("asend_poll%dw%d" % (f, w), "A_ASEND_POLL", f, w, 0))
         A.append(("arecv_poll%dw%d" % (f, w), "A_ARECV_POLL", f, w, 0))
+    A.append(("drop_s_async", "A_DROP_S", 0, 0, 1))
+    A.append(("drop_r_async", "A_DROP_R", 0, 0, 1))
     A.append(("stream_start", "A_STREAM_START", 0, 0, 0))
     A.append(("stream_pollw0", "A_STREAM_POLL", 0, 0, 0))
     A.append(("stream_pollw1", "A_STREAM_POLL", 0, 1, 0))
@@ -551,6 +556,12 @@ CUR = {  # curated sequences by theme (indices into CURATED)
 }
 
 
+ASYNC_DROPS = [["try_send", "clone_s1", "drop_s_async", "drop_s_async", "try_recv", "try_recv", "recv_timeout"],
+               ["arecv_start0", "drop_s_async", "arecv_poll0w0", "try_recv"],
+               ["asend_start0", "clone_r2", "drop_r_async", "asend_poll0w0", "try_send"],
+               ["try_send", "clone_r0", "drop_r_async", "drop_r", "clone_s0", "drop_s_async", "drop_s"]]
+
+
 def clone_after():
     """every clone flavour after close / after the last handle of the other side went away"""
     out = []
@@ -571,6 +582,7 @@ def cur(*themes):
 
 
 MIXED = DROPPY + ["u32", "Big", "Pad"]
+SEQT = DROPPY + ["u32", "Big"]  # sequences: the padded class is slow there (measured: 900 s timeout) and adds nothing
 ALLT = ZST + PLAIN + DROPPY
 
 
@@ -603,7 +615,7 @@ def instances(prop, tier):
         L += B(SEND_OUTERS, RECV_PEERS + KILL_FOR_SENDER + ["OBSERVE"], MIXED, [0, 1])
         L += B(RECV_OUTERS, SEND_PEERS + KILL_FOR_RECEIVER + ["OBSERVE"], MIXED, [0, 1])
         L += async_matrix(MIXED, [0, 1], full)
-        L += seqs(CURATED, MIXED, [0, 1] if full else [1])
+        L += seqs(CURATED, SEQT, [0, 1] if full else [1])
         WW = wake_windows(MIXED, full)
         if not full:
             L = pick(L, 22) + WW
@@ -675,9 +687,9 @@ def instances(prop, tier):
         L += [i for i in A if any(p in i.name for p in ("_recv_r", "_send_r", "_try_recv_r", "_try_send_r", "_drain", "_send_to", "_recv_to"))]
         L += seqs(cur("handles") + [["convert_s", "convert_r", "try_send", "arecv_start0", "arecv_poll0w0"],
                                     ["clone_s1", "clone_r1", "drop_s", "drop_r", "asend_start0", "recv", "asend_poll0w0"],
-                                    ["clone_s2", "clone_r3", "convert_s", "try_send", "stream_start", "stream_pollw0"]], MIXED, [0, 1])
+                                    ["clone_s2", "clone_r3", "convert_s", "try_send", "stream_start", "stream_pollw0"]], SEQT, [0, 1])
         L += drain_states(MIXED, False)[:4]
-        CA = seqs([c for c in clone_after() if not c[0].startswith("close")], MIXED, [1])
+        CA = seqs([c for c in clone_after() if not c[0].startswith("close")], SEQT, [1])
         if not full:
             L = pick(L, 26) + CA
         else:
@@ -698,15 +710,15 @@ def instances(prop, tier):
         else:
             L += CA
     elif prop == "C11":
-        L += B(SEND_OUTERS, ["DROP_R"], DROPPY, [0, 1])
-        L += B(RECV_OUTERS, ["DROP_S"], DROPPY, [0, 1])
+        L += B(SEND_OUTERS, ["DROP_R", "DROP_R_ASYNC"], DROPPY, [0, 1])
+        L += B(RECV_OUTERS, ["DROP_S", "DROP_S_ASYNC"], DROPPY, [0, 1])
         A = async_matrix(DROPPY, [0, 1], full)
         L += [i for i in A if "drop_" in i.name]
         L += seqs(cur("disc") + [["try_send", "try_send", "drop_s", "try_recv", "try_recv", "try_recv"],
                                  ["clone_s0", "drop_s", "try_recv", "drop_s", "try_recv", "recv_timeout"],
                                  ["clone_r0", "drop_r", "try_send", "drop_r", "try_send", "send_timeout", "try_send_opt"],
                                  ["try_send", "drop_s", "stream_start", "stream_pollw0", "stream_pollw0"]], DROPPY, [0, 1, 2])
-        CA = seqs([c for c in clone_after() if not c[0].startswith("close")], DROPPY, [2])
+        CA = seqs([c for c in clone_after() if not c[0].startswith("close")], DROPPY, [2]) + seqs(ASYNC_DROPS, DROPPY, [0, 1])
         if not full:
             L = pick(L, 26) + CA
         else:
@@ -721,6 +733,7 @@ def instances(prop, tier):
         L += seqs(cur("handles"), DROPPY, [1])
         L += seqs([["clone_s1", "asend_start0", "clone_r2", "drop_r", "drop_s", "asend_poll0w0", "close_r", "clone_s0"]], DROPPY, [0])
         L += seqs(clone_after(), DROPPY, [1])
+        L += seqs(ASYNC_DROPS, DROPPY, [1])
     elif prop == "C13":
         timed = ["SEND_TO", "SEND_OPT_TO", "RECV_TO"]
         L += [timed_alone(T, c, o) for T in DROPPY for c in (0, 1) for o in timed]
@@ -767,9 +780,9 @@ def instances(prop, tier):
     elif prop == "C18":
         singles = [s for s in all_sequences(1)]
         if full:
-            L += seqs(singles, MIXED, [0, 1, 2, None])
-            L += seqs(CURATED, MIXED, [0, 1, 2, None])
-            L += seqs([s for s in all_sequences(2)], MIXED, [1])
+            L += seqs(singles, SEQT, [0, 1, 2, None])
+            L += seqs(CURATED, SEQT, [0, 1, 2, None])
+            L += seqs([s for s in all_sequences(2)], SEQT, [1])
         else:
             k = 0
             SQ = DROPPY + ["u32", "Big"]
